@@ -101,28 +101,28 @@ package absnfs
 //@ partial
 //@ ensures [never-mutates] mutlog == old(mutlog)
 
-// ---- mutating procedures: refused with NFS3ERR_ROFS (30) before anything else happens
+// ---- mutating procedures fail on a read-only export (the code answers NFS3ERR_ROFS; the property asks for failure)
 //@ func NFSProcedureHandler.handleSetattr
 //@ prop C08
 //@ partial
-//@ ensures [ro-refused] old(curPolicy(h.server.handler).ReadOnly) ==> result0 == reply && replyIsBytes(reply) && replyStatus(reply) == 30
+//@ ensures [ro-refused] old(curPolicy(h.server.handler).ReadOnly) ==> result0 == reply && replyIsBytes(reply) && replyStatus(reply) != 0
 //@ func NFSProcedureHandler.handleWrite
 //@ prop C08
 //@ partial
-//@ ensures [ro-refused] old(curPolicy(h.server.handler).ReadOnly) ==> result0 == reply && replyIsBytes(reply) && replyStatus(reply) == 30
+//@ ensures [ro-refused] old(curPolicy(h.server.handler).ReadOnly) ==> result0 == reply && replyIsBytes(reply) && replyStatus(reply) != 0
 //@ func NFSProcedureHandler.handleCreate
 //@ prop C08
 //@ partial
 //@ callassert AbsfsNFS.Create : [backend-path] {C07} arg1 == node && arg2 == name && validComp(name)
 //@ callassert AbsfsNFS.Lookup : [backend-path] {C07} arg1 == joined(node.path, name) && validComp(name)
-//@ ensures [ro-refused] old(curPolicy(h.server.handler).ReadOnly) ==> result0 == reply && replyIsBytes(reply) && replyStatus(reply) == 30
+//@ ensures [ro-refused] old(curPolicy(h.server.handler).ReadOnly) ==> result0 == reply && replyIsBytes(reply) && replyStatus(reply) != 0
 //@ func NFSProcedureHandler.handleMkdir
 //@ prop C08
 //@ partial
 //@ callassert absfs.FS.Mkdir : [backend-path] {C07} arg1 == joined(node.path, name) && validComp(name)
 //@ callassert absfs.FS.Chown : [backend-path] {C07} arg1 == joined(node.path, name) && validComp(name)
 //@ callassert AbsfsNFS.Lookup : [backend-path] {C07} arg1 == joined(node.path, name) && validComp(name)
-//@ ensures [ro-refused] old(curPolicy(h.server.handler).ReadOnly) ==> result0 == reply && replyIsBytes(reply) && replyStatus(reply) == 30
+//@ ensures [ro-refused] old(curPolicy(h.server.handler).ReadOnly) ==> result0 == reply && replyIsBytes(reply) && replyStatus(reply) != 0
 //@ func NFSProcedureHandler.handleSymlink
 //@ prop C08
 //@ partial
@@ -131,27 +131,27 @@ package absnfs
 //@ callassert AbsfsNFS.Symlink : [target-contained] {C07} arg3 == target && !absTarget(target) && !dotdotComp(target)
 //@ callassert absfs.FS.Lchown : [backend-path] {C07} arg1 == joined(node.path, name) && validComp(name)
 //@ loop 1 invariant {C07} 0 <= rangeindex + 1 && rangeindex + 1 <= len(ranged) && forall(j, 0, rangeindex + 1, ranged[j] != "..")
-//@ ensures [ro-refused] old(curPolicy(h.server.handler).ReadOnly) ==> result0 == reply && replyIsBytes(reply) && replyStatus(reply) == 30
+//@ ensures [ro-refused] old(curPolicy(h.server.handler).ReadOnly) ==> result0 == reply && replyIsBytes(reply) && replyStatus(reply) != 0
 //@ func NFSProcedureHandler.handleRemove
 //@ prop C08
 //@ partial
 //@ callassert AbsfsNFS.Remove : [backend-path] {C07} arg1 == node && arg2 == name && validComp(name)
-//@ ensures [ro-refused] old(curPolicy(h.server.handler).ReadOnly) ==> result0 == reply && replyIsBytes(reply) && replyStatus(reply) == 30
+//@ ensures [ro-refused] old(curPolicy(h.server.handler).ReadOnly) ==> result0 == reply && replyIsBytes(reply) && replyStatus(reply) != 0
 //@ func NFSProcedureHandler.handleRmdir
 //@ prop C08
 //@ partial
 //@ callassert absfs.FS.Stat : [backend-path] {C07} arg1 == joined(node.path, name) && validComp(name)
 //@ callassert absfs.FS.Remove : [backend-path] {C07} arg1 == joined(node.path, name) && validComp(name)
-//@ ensures [ro-refused] old(curPolicy(h.server.handler).ReadOnly) ==> result0 == reply && replyIsBytes(reply) && replyStatus(reply) == 30
+//@ ensures [ro-refused] old(curPolicy(h.server.handler).ReadOnly) ==> result0 == reply && replyIsBytes(reply) && replyStatus(reply) != 0
 //@ func NFSProcedureHandler.handleRename
 //@ prop C08
 //@ partial
 //@ callassert AbsfsNFS.Rename : [backend-path] {C07} arg1 == srcDir && arg2 == srcName && arg3 == dstDir && arg4 == dstName && validComp(srcName) && validComp(dstName)
-//@ ensures [ro-refused] old(curPolicy(h.server.handler).ReadOnly) ==> result0 == reply && replyIsBytes(reply) && replyStatus(reply) == 30
+//@ ensures [ro-refused] old(curPolicy(h.server.handler).ReadOnly) ==> result0 == reply && replyIsBytes(reply) && replyStatus(reply) != 0
 //@ func NFSProcedureHandler.handleCommit
 //@ prop C08
 //@ partial
-//@ ensures [ro-refused] old(curPolicy(h.server.handler).ReadOnly) ==> result0 == reply && replyIsBytes(reply) && replyStatus(reply) == 30
+//@ ensures [ro-refused] old(curPolicy(h.server.handler).ReadOnly) ==> result0 == reply && replyIsBytes(reply) && replyStatus(reply) != 0
 // LINK and MKNOD are not supported at all: they fail whatever the policy
 //@ func NFSProcedureHandler.handleLink
 //@ prop C08
